@@ -26,6 +26,7 @@ def configs(tier):
                     (["id", "name", "kind"], [["uniq", "IsUnique", "id"], ["dc", "DistinctCount", "kind < 3"]]),
                     (["name", "amount"], []),
                     (["kind", "id"], [["dc", "DistinctCount", "kind >= 2"]]),
+                    (["note", "kind"], []),  # every field may be empty
                 ):
                     if tier == "quick" and header == 1 and line_delimiter in ("cr", "any") and not checks:
                         continue
